@@ -1,5 +1,5 @@
 """C17 - stream output is well-formed Cucumber Messages in the documented order."""
-from . import error_rules as er, shape_rules as sh, line_rules as lr, compiler_rules as cr, misc_rules as ms
+from . import error_rules as er, shape_rules as sh, line_rules as lr, compiler_rules as cr, misc_rules as ms, matcher_rules as mr
 
 META = {
     "level": "other",
@@ -23,3 +23,5 @@ def run(rep):
     cr.rule_skel(rep, "C17.skel")
     cr.rule_fold(rep, "C17.type", "C17.vocab")
     ms.rule_inst(rep, "C17.inst")
+    ms.rule_parse_resets(rep, "C17.reset")
+    mr.rule_reset(rep, "C17.builderreset", classes=("gherkin.ast_builder.AstBuilder",))
